@@ -101,6 +101,35 @@ theorem normIds_snoc_fresh {l : List Nat} {x : Nat} (h0 : x ≠ 0) (h1 : x ≠ 1
   · exact h1 h
   · exact hl h
 
+theorem mem_dedupAux_of_mem {s l : List Nat} {i : Nat} (hl : i ∈ l) (hs : i ∉ s) : i ∈ dedupAux s l := by
+  induction l generalizing s with
+  | nil => simp at hl
+  | cons a l ih =>
+    unfold dedupAux
+    split
+    · rename_i has
+      rcases List.mem_cons.mp hl with rfl | hl
+      · exact absurd has hs
+      · exact ih hl hs
+    · rcases List.mem_cons.mp hl with rfl | hl
+      · exact List.mem_cons_self ..
+      · by_cases hia : i = a
+        · subst hia; exact List.mem_cons_self ..
+        · exact List.mem_cons_of_mem _ (ih hl (by simp [hia, hs]))
+
+theorem mem_normIds_iff {l : List Nat} {i : Nat} : i ∈ normIds l ↔ i = 0 ∨ i = 1 ∨ i ∈ l := by
+  constructor
+  · exact mem_normIds
+  · rw [normIds_eq]
+    rintro (h | h | h)
+    · subst h; simp
+    · subst h; simp
+    · by_cases h0 : i = 0
+      · subst h0; simp
+      · by_cases h1 : i = 1
+        · subst h1; simp
+        · exact List.mem_cons_of_mem _ (List.mem_cons_of_mem _ (mem_dedupAux_of_mem h (by simp [h0, h1])))
+
 theorem normIds_ne_nil (l : List Nat) : normIds l ≠ [] := by rw [normIds_eq]; simp
 
 /-! ### heaps -/
@@ -639,53 +668,73 @@ theorem HT.mapStores {α : Type} (f : α → Str) (l : List α) : HT reg n H0 (l
   | cons a r ih => exact HT.cons (step_store (f a)) ih
 
 mutual
-  theorem cExpr_HT : ∀ e : Expr, HT reg n H0 (cExpr e)
+  theorem cExpr_HT (fx : Fixes) : ∀ e : Expr, HT reg n H0 (cExpr fx e)
     | .name nm => by simp only [cExpr]; exact HT.single (step_load nm)
     | .attr e a => by
       simp only [cExpr]
       split
       · exact HT.single (step_load _)
-      · exact cExpr_HT e
-    | .call f args => by simp only [cExpr]; exact (cExpr_HT f).append (cExprs_HT args)
+      · exact cExpr_HT fx e
+    | .call f args => by simp only [cExpr]; exact (cExpr_HT fx f).append (cExprs_HT fx args)
     | .const => by simp only [cExpr]; exact HT.nil
     | .bool _ => by simp only [cExpr]; exact HT.nil
     | .str _ => by simp only [cExpr]; exact HT.nil
-    | .binop l r => by simp only [cExpr]; exact (cExpr_HT l).append (cExpr_HT r)
+    | .binop l r => by simp only [cExpr]; exact (cExpr_HT fx l).append (cExpr_HT fx r)
     | .lambda a body => by
       simp only [cExpr]
-      have : [Op.pushScope true false false] ++ cArgs a ++ [Op.enterFunc, Op.pushScope false false false] ++ cExpr body
+      have : [Op.pushScope true false false] ++ cArgs fx a ++ [Op.enterFunc, Op.pushScope false false false] ++ cExpr fx body
               ++ [Op.popScope, Op.exitFunc, Op.popScope]
            = Op.pushScope true false false ::
-              ((cArgs a ++ ([Op.enterFunc] ++ (Op.pushScope false false false :: (cExpr body ++ [Op.popScope])) ++ [Op.exitFunc]))
+              ((cArgs fx a ++ ([Op.enterFunc] ++ (Op.pushScope false false false :: (cExpr fx body ++ [Op.popScope])) ++ [Op.exitFunc]))
                 ++ [Op.popScope]) := by simp
       rw [this]
       apply HTU.bracket
-      apply HTU.append (cArgs_HTU a)
+      apply HTU.append (cArgs_HTU fx a)
       apply HT.toU
-      exact ((HT.single step_enterFunc).append (HT.bracket _ _ _ (cExpr_HT body))).append (HT.single step_exitFunc)
+      exact ((HT.single step_enterFunc).append (HT.bracket _ _ _ (cExpr_HT fx body))).append (HT.single step_exitFunc)
     | .comp _ elts gens => by
-      simp only [cExpr]
-      have : [Op.pushScope true false false] ++ cGens gens ++ cExprs elts ++ [Op.popScope]
-           = Op.pushScope true false false :: ((cGens gens ++ cExprs elts) ++ [Op.popScope]) := by simp
-      rw [this]
-      exact HT.bracket _ _ _ ((cGens_HT gens).append (cExprs_HT elts))
-    | .ifExp t a b => by simp only [cExpr]; exact ((cExpr_HT t).append (cExpr_HT a)).append (cExpr_HT b)
-    | .tuple es => by simp only [cExpr]; exact cExprs_HT es
-    | .list es => by simp only [cExpr]; exact cExprs_HT es
-    | .subscript v i => by simp only [cExpr]; exact (cExpr_HT v).append (cExpr_HT i)
-  theorem cExprs_HT : ∀ es : List Expr, HT reg n H0 (cExprs es)
+      have base : HT reg n H0 ([Op.pushScope true false false] ++ cGens fx gens ++ cExprs fx elts ++ [Op.popScope]) := by
+        have : [Op.pushScope true false false] ++ cGens fx gens ++ cExprs fx elts ++ [Op.popScope]
+             = Op.pushScope true false false :: ((cGens fx gens ++ cExprs fx elts) ++ [Op.popScope]) := by simp
+        rw [this]
+        exact HT.bracket _ _ _ ((cGens_HT fx gens).append (cExprs_HT fx elts))
+      match gens with
+      | [] =>
+        simp only [cExpr]
+        split
+        · have : [Op.pushScope true false false] ++ cExprs fx elts ++ [Op.popScope]
+               = Op.pushScope true false false :: (cExprs fx elts ++ [Op.popScope]) := by simp
+          rw [this]
+          exact HT.bracket _ _ _ (cExprs_HT fx elts)
+        · exact base
+      | .mk t it ifs :: gs =>
+        simp only [cExpr]
+        split
+        · have : cExpr fx it ++ [Op.pushScope false false false] ++ cTarget fx t ++ cExprs fx ifs ++ cGens fx gs ++ cExprs fx elts
+                  ++ [Op.popScope]
+               = cExpr fx it ++ (Op.pushScope false false false ::
+                  ((cTarget fx t ++ cExprs fx ifs ++ cGens fx gs ++ cExprs fx elts) ++ [Op.popScope])) := by simp
+          rw [this]
+          exact (cExpr_HT fx it).append (HT.bracket _ _ _
+            ((((cTarget_HT fx t).append (cExprs_HT fx ifs)).append (cGens_HT fx gs)).append (cExprs_HT fx elts)))
+        · exact base
+    | .ifExp t a b => by simp only [cExpr]; exact ((cExpr_HT fx t).append (cExpr_HT fx a)).append (cExpr_HT fx b)
+    | .tuple es => by simp only [cExpr]; exact cExprs_HT fx es
+    | .list es => by simp only [cExpr]; exact cExprs_HT fx es
+    | .subscript v i => by simp only [cExpr]; exact (cExpr_HT fx v).append (cExpr_HT fx i)
+  theorem cExprs_HT (fx : Fixes) : ∀ es : List Expr, HT reg n H0 (cExprs fx es)
     | [] => by simp only [cExprs]; exact HT.nil
-    | e :: es => by simp only [cExprs]; exact (cExpr_HT e).append (cExprs_HT es)
-  theorem cTarget_HT : ∀ e : Expr, HT reg n H0 (cTarget e)
+    | e :: es => by simp only [cExprs]; exact (cExpr_HT fx e).append (cExprs_HT fx es)
+  theorem cTarget_HT (fx : Fixes) : ∀ e : Expr, HT reg n H0 (cTarget fx e)
     | .name nm => by simp only [cTarget]; exact HT.single (step_store nm)
     | .attr e a => by
       simp only [cTarget]
       split
       · exact HT.single (step_store _)
-      · exact cExpr_HT e
-    | .tuple es => by simp only [cTarget]; exact cTargets_HT es
-    | .list es => by simp only [cTarget]; exact cTargets_HT es
-    | .subscript v i => by simp only [cTarget]; exact (cExpr_HT v).append (cExpr_HT i)
+      · exact cExpr_HT fx e
+    | .tuple es => by simp only [cTarget]; exact cTargets_HT fx es
+    | .list es => by simp only [cTarget]; exact cTargets_HT fx es
+    | .subscript v i => by simp only [cTarget]; exact (cExpr_HT fx v).append (cExpr_HT fx i)
     | .call _ _ => by simp only [cTarget]; exact HT.nil
     | .const => by simp only [cTarget]; exact HT.nil
     | .bool _ => by simp only [cTarget]; exact HT.nil
@@ -694,38 +743,38 @@ mutual
     | .lambda _ _ => by simp only [cTarget]; exact HT.nil
     | .comp _ _ _ => by simp only [cTarget]; exact HT.nil
     | .ifExp _ _ _ => by simp only [cTarget]; exact HT.nil
-  theorem cTargets_HT : ∀ es : List Expr, HT reg n H0 (cTargets es)
+  theorem cTargets_HT (fx : Fixes) : ∀ es : List Expr, HT reg n H0 (cTargets fx es)
     | [] => by simp only [cTargets]; exact HT.nil
-    | e :: es => by simp only [cTargets]; exact (cTarget_HT e).append (cTargets_HT es)
-  theorem cGens_HT : ∀ gs : List Gen, HT reg n H0 (cGens gs)
+    | e :: es => by simp only [cTargets]; exact (cTarget_HT fx e).append (cTargets_HT fx es)
+  theorem cGens_HT (fx : Fixes) : ∀ gs : List Gen, HT reg n H0 (cGens fx gs)
     | [] => by simp only [cGens]; exact HT.nil
     | .mk t it ifs :: gs => by
       simp only [cGens]
-      exact (((cExpr_HT it).append (cTarget_HT t)).append (cExprs_HT ifs)).append (cGens_HT gs)
-  theorem cOptExprs_HT : ∀ es : List (Option Expr), HT reg n H0 (cOptExprs es)
+      exact (((cExpr_HT fx it).append (cTarget_HT fx t)).append (cExprs_HT fx ifs)).append (cGens_HT fx gs)
+  theorem cOptExprs_HT (fx : Fixes) : ∀ es : List (Option Expr), HT reg n H0 (cOptExprs fx es)
     | [] => by simp only [cOptExprs]; exact HT.nil
-    | none :: r => by simp only [cOptExprs]; exact cOptExprs_HT r
-    | some e :: r => by simp only [cOptExprs]; exact (cExpr_HT e).append (cOptExprs_HT r)
-  theorem cParams_HT : ∀ ps : List Param, HT reg n H0 (cParams ps)
+    | none :: r => by simp only [cOptExprs]; exact cOptExprs_HT fx r
+    | some e :: r => by simp only [cOptExprs]; exact (cExpr_HT fx e).append (cOptExprs_HT fx r)
+  theorem cParams_HT (fx : Fixes) : ∀ ps : List Param, HT reg n H0 (cParams fx ps)
     | [] => by simp only [cParams]; exact HT.nil
-    | .mk nm none :: ps => by simp only [cParams]; exact HT.cons (step_store nm) (cParams_HT ps)
+    | .mk nm none :: ps => by simp only [cParams]; exact HT.cons (step_store nm) (cParams_HT fx ps)
     | .mk nm (some ann) :: ps => by
       simp only [cParams]
-      exact (cExpr_HT ann).append (HT.cons (step_store nm) (cParams_HT ps))
-  theorem cArgs_HTU : ∀ a : Args, HTU reg n H0 (cArgs a)
+      exact (cExpr_HT fx ann).append (HT.cons (step_store nm) (cParams_HT fx ps))
+  theorem cArgs_HTU (fx : Fixes) : ∀ a : Args, HTU reg n H0 (cArgs fx a)
     | .mk args defaults vararg kwonly kwdefaults kwarg => by
       simp only [cArgs]
       have key : ∀ va kw : List Op, HT reg n H0 va → HT reg n H0 kw →
-          HTU reg n H0 ([Op.upScope] ++ cExprs defaults ++ cOptExprs kwdefaults ++ [Op.downScope] ++ cParams args
-            ++ cParams kwonly ++ va ++ kw) := by
+          HTU reg n H0 ([Op.upScope] ++ cExprs fx defaults ++ cOptExprs fx kwdefaults ++ [Op.downScope] ++ cParams fx args
+            ++ cParams fx kwonly ++ va ++ kw) := by
         intro va kw hva hkw
-        have : [Op.upScope] ++ cExprs defaults ++ cOptExprs kwdefaults ++ [Op.downScope] ++ cParams args ++ cParams kwonly
+        have : [Op.upScope] ++ cExprs fx defaults ++ cOptExprs fx kwdefaults ++ [Op.downScope] ++ cParams fx args ++ cParams fx kwonly
                 ++ va ++ kw
-             = (Op.upScope :: ((cExprs defaults ++ cOptExprs kwdefaults) ++ [Op.downScope]))
-                ++ (cParams args ++ cParams kwonly ++ va ++ kw) := by simp
+             = (Op.upScope :: ((cExprs fx defaults ++ cOptExprs fx kwdefaults) ++ [Op.downScope]))
+                ++ (cParams fx args ++ cParams fx kwonly ++ va ++ kw) := by simp
         rw [this]
-        apply HTU.append (HTU.updown ((cExprs_HT defaults).append (cOptExprs_HT kwdefaults)))
-        exact HT.toU ((((cParams_HT args).append (cParams_HT kwonly)).append hva).append hkw)
+        apply HTU.append (HTU.updown ((cExprs_HT fx defaults).append (cOptExprs_HT fx kwdefaults)))
+        exact HT.toU ((((cParams_HT fx args).append (cParams_HT fx kwonly)).append hva).append hkw)
       apply key
       · cases vararg with
         | none => exact HT.nil
@@ -735,10 +784,10 @@ mutual
         | some v => exact HT.single (step_store v)
 end
 
-theorem cOptExpr_HT (e : Option Expr) : HT reg n H0 (cOptExpr e) := by
+theorem cOptExpr_HT (fx : Fixes) (e : Option Expr) : HT reg n H0 (cOptExpr fx e) := by
   cases e with
   | none => exact HT.nil
-  | some e => exact cExpr_HT e
+  | some e => exact cExpr_HT fx e
 
 theorem cAlias_HT (b : Bool) (a : Alias) : HT reg n H0 (cAlias b a) := by
   unfold cAlias
@@ -754,28 +803,44 @@ theorem cAliases_HT (b : Bool) (names : List Alias) : HT reg n H0 ((names.map (c
   | nil => exact HT.nil
   | cons a r ih => simp only [List.map_cons, List.flatten_cons]; exact (cAlias_HT b a).append ih
 
-theorem cWithItems_HT : ∀ ws : List WithItem, HT reg n H0 (cWithItems ws)
+theorem cWithItems_HT (fx : Fixes) : ∀ ws : List WithItem, HT reg n H0 (cWithItems fx ws)
   | [] => by simp only [cWithItems]; exact HT.nil
   | w :: ws => by
     simp only [cWithItems]
-    refine ((cExpr_HT w.ctx).append ?_).append (cWithItems_HT ws)
+    refine ((cExpr_HT fx w.ctx).append ?_).append (cWithItems_HT fx ws)
     cases w.target with
     | none => exact HT.nil
-    | some t => exact cTarget_HT t
+    | some t => exact cTarget_HT fx t
 
-theorem cDecos_HT (ln : Nat) : ∀ ds : List Expr, HT reg n H0 (cDecos ln ds)
+theorem cDecos_HT (fx : Fixes) (ln : Nat) : ∀ ds : List Expr, HT reg n H0 (cDecos fx ln ds)
   | [] => by simp only [cDecos]; exact HT.nil
   | d :: ds => by
     simp only [cDecos]
-    exact HT.cons (step_setLine _) ((cExpr_HT d).append (cDecos_HT ln ds))
+    exact HT.cons (step_setLine _) ((cExpr_HT fx d).append (cDecos_HT fx ln ds))
 
-theorem cDelTargets_HT : ∀ ts : List Expr, HT reg n H0 (cDelTargets ts)
+theorem cDelTargets_HT (fx : Fixes) : ∀ ts : List Expr, HT reg n H0 (cDelTargets fx ts)
   | [] => by simp only [cDelTargets]; exact HT.nil
   | t :: r => by
     cases t <;> simp only [cDelTargets] <;>
       first
-        | exact HT.cons (step_delName _) (cDelTargets_HT r)
-        | exact (cExpr_HT _).append (cDelTargets_HT r)
+        | exact HT.cons (step_delName _) (cDelTargets_HT fx r)
+        | exact (cExpr_HT fx _).append (cDelTargets_HT fx r)
+
+theorem cAugLoad_HT (fx : Fixes) (t : Expr) : HT reg n H0 (cAugLoad fx t) := by
+  unfold cAugLoad
+  split
+  · exact HT.single (step_load _)
+  · split
+    · exact HT.single (step_load _)
+    · exact cExpr_HT fx _
+  · exact HT.nil
+
+theorem cAnnBare_HT (fx : Fixes) (t : Expr) : HT reg n H0 (cAnnBare fx t) := by
+  unfold cAnnBare
+  split
+  · exact cExpr_HT fx _
+  · exact (cExpr_HT fx _).append (cExpr_HT fx _)
+  · exact HT.nil
 
 theorem allNames_HT (targets : List Expr) (v : Expr) : HT reg n H0 (cAll targets v) := by
   unfold cAll
@@ -788,74 +853,94 @@ theorem allNames_HT (targets : List Expr) (v : Expr) : HT reg n H0 (cAll targets
   · exact HT.nil
 
 mutual
-  theorem cStmt_HT : ∀ (ln : Nat) (s : Stmt), HT reg n H0 (cStmt ln s)
-    | _, .expr e => by simp only [cStmt]; exact cExpr_HT e
+  theorem cStmt_HT (fx : Fixes) : ∀ (ln : Nat) (s : Stmt), HT reg n H0 (cStmt fx ln s)
+    | _, .expr e => by simp only [cStmt]; exact cExpr_HT fx e
     | _, .assign targets v => by
       simp only [cStmt]
-      exact ((cExpr_HT v).append (cTargets_HT targets)).append (allNames_HT targets v)
-    | _, .augAssign t v => by simp only [cStmt]; exact (cTarget_HT t).append (cExpr_HT v)
+      exact ((cExpr_HT fx v).append (cTargets_HT fx targets)).append (allNames_HT targets v)
+    | _, .augAssign t v => by
+      simp only [cStmt]
+      split
+      · exact ((cAugLoad_HT fx t).append (cExpr_HT fx v)).append (cTarget_HT fx t)
+      · exact (cTarget_HT fx t).append (cExpr_HT fx v)
     | _, .annAssign t ann v => by
-      simp only [cStmt]; exact ((cTarget_HT t).append (cExpr_HT ann)).append (cOptExpr_HT v)
+      simp only [cStmt]
+      split
+      · refine HT.append ?_ (cExpr_HT fx ann)
+        cases v with
+        | none => exact cAnnBare_HT fx t
+        | some e => exact (cExpr_HT fx e).append (cTarget_HT fx t)
+      · exact ((cTarget_HT fx t).append (cExpr_HT fx ann)).append (cOptExpr_HT fx v)
     | _, .import_ names => by simp only [cStmt]; exact cAliases_HT _ names
     | _, .importFrom _ names => by simp only [cStmt]; exact cAliases_HT _ names
     | ln, .funcDef name a body decos returns => by
       simp only [cStmt]
-      have : [Op.pushScope true false false, Op.dunderClass] ++ cDecos ln decos ++ [Op.setLine ln] ++ cArgs a ++ cOptExpr returns
-              ++ [Op.enterFunc, Op.pushScope false false true, Op.storeIfNotInClass name] ++ cStmts ln body
+      have : [Op.pushScope true false false, Op.dunderClass] ++ cDecos fx ln decos ++ [Op.setLine ln] ++ cArgs fx a ++ cOptExpr fx returns
+              ++ [Op.enterFunc, Op.pushScope false false true, Op.storeIfNotInClass name] ++ cStmts fx ln body
               ++ [Op.popScope, Op.exitFunc, Op.popScope, Op.store name]
            = (Op.pushScope true false false ::
-                (([Op.dunderClass] ++ cDecos ln decos ++ [Op.setLine ln] ++ cArgs a ++
-                   (cOptExpr returns ++ [Op.enterFunc] ++
-                     (Op.pushScope false false true :: (([Op.storeIfNotInClass name] ++ cStmts ln body) ++ [Op.popScope]))
+                (([Op.dunderClass] ++ cDecos fx ln decos ++ [Op.setLine ln] ++ cArgs fx a ++
+                   (cOptExpr fx returns ++ [Op.enterFunc] ++
+                     (Op.pushScope false false true :: (([Op.storeIfNotInClass name] ++ cStmts fx ln body) ++ [Op.popScope]))
                      ++ [Op.exitFunc])) ++ [Op.popScope])) ++ [Op.store name] := by simp
       rw [this]
       refine HT.append (HTU.bracket _ ?_) (HT.single (step_store name))
-      refine HTU.append (HTU.append (HT.toU ?_) (cArgs_HTU a)) (HT.toU ?_)
-      · exact ((HT.single step_dunderClass).append (cDecos_HT ln decos)).append (HT.single (step_setLine ln))
-      · refine (((cOptExpr_HT returns).append (HT.single step_enterFunc)).append ?_).append (HT.single step_exitFunc)
-        exact HT.bracket _ _ _ ((HT.single (step_storeIfNotInClass name)).append (cStmts_HT ln body))
+      refine HTU.append (HTU.append (HT.toU ?_) (cArgs_HTU fx a)) (HT.toU ?_)
+      · exact ((HT.single step_dunderClass).append (cDecos_HT fx ln decos)).append (HT.single (step_setLine ln))
+      · refine (((cOptExpr_HT fx returns).append (HT.single step_enterFunc)).append ?_).append (HT.single step_exitFunc)
+        exact HT.bracket _ _ _ ((HT.single (step_storeIfNotInClass name)).append (cStmts_HT fx ln body))
     | ln, .classDef name bases body decos => by
       simp only [cStmt]
-      have : cExprs bases ++ cDecos ln decos ++ [Op.classDelayed name, Op.pushScope false true false, Op.incClass, Op.store name]
-              ++ cStmts ln body ++ [Op.decClass, Op.popScope, Op.removeMissing name, Op.store name]
-           = (cExprs bases ++ cDecos ln decos ++ [Op.classDelayed name]) ++
-              (Op.pushScope false true false :: (([Op.incClass, Op.store name] ++ cStmts ln body ++ [Op.decClass]) ++ [Op.popScope]))
+      have : cExprs fx bases ++ cDecos fx ln decos ++ [Op.classDelayed name, Op.pushScope false true false, Op.incClass, Op.store name]
+              ++ cStmts fx ln body ++ [Op.decClass, Op.popScope, Op.removeMissing name, Op.store name]
+           = (cExprs fx bases ++ cDecos fx ln decos ++ [Op.classDelayed name]) ++
+              (Op.pushScope false true false :: (([Op.incClass, Op.store name] ++ cStmts fx ln body ++ [Op.decClass]) ++ [Op.popScope]))
               ++ [Op.removeMissing name, Op.store name] := by simp
       rw [this]
-      refine ((((cExprs_HT bases).append (cDecos_HT ln decos)).append (HT.single (step_classDelayed name))).append ?_).append
+      refine ((((cExprs_HT fx bases).append (cDecos_HT fx ln decos)).append (HT.single (step_classDelayed name))).append ?_).append
         (HT.cons (step_removeMissing name) (HT.single (step_store name)))
       apply HT.bracket
-      exact ((HT.cons step_incClass (HT.single (step_store name))).append (cStmts_HT ln body)).append (HT.single step_decClass)
+      exact ((HT.cons step_incClass (HT.single (step_store name))).append (cStmts_HT fx ln body)).append (HT.single step_decClass)
     | ln, .for_ t it body orelse => by
       simp only [cStmt]
-      exact (((cTarget_HT t).append (cExpr_HT it)).append (cStmts_HT ln body)).append (cStmts_HT ln orelse)
+      refine (HT.append ?_ (cStmts_HT fx ln body)).append (cStmts_HT fx ln orelse)
+      split
+      · exact (cExpr_HT fx it).append (cTarget_HT fx t)
+      · exact (cTarget_HT fx t).append (cExpr_HT fx it)
     | ln, .while_ t body orelse => by
-      simp only [cStmt]; exact ((cExpr_HT t).append (cStmts_HT ln body)).append (cStmts_HT ln orelse)
+      simp only [cStmt]; exact ((cExpr_HT fx t).append (cStmts_HT fx ln body)).append (cStmts_HT fx ln orelse)
     | ln, .if_ t body orelse => by
-      simp only [cStmt]; exact ((cExpr_HT t).append (cStmts_HT ln body)).append (cStmts_HT ln orelse)
-    | ln, .with_ items body => by simp only [cStmt]; exact (cWithItems_HT items).append (cStmts_HT ln body)
+      simp only [cStmt]; exact ((cExpr_HT fx t).append (cStmts_HT fx ln body)).append (cStmts_HT fx ln orelse)
+    | ln, .with_ items body => by simp only [cStmt]; exact (cWithItems_HT fx items).append (cStmts_HT fx ln body)
     | ln, .try_ body hs orelse final => by
       simp only [cStmt]
-      exact (((cStmts_HT ln body).append (cHandlers_HT ln hs)).append (cStmts_HT ln orelse)).append (cStmts_HT ln final)
-    | _, .return_ e => by simp only [cStmt]; exact cOptExpr_HT e
+      exact (((cStmts_HT fx ln body).append (cHandlers_HT fx ln hs)).append (cStmts_HT fx ln orelse)).append (cStmts_HT fx ln final)
+    | _, .return_ e => by simp only [cStmt]; exact cOptExpr_HT fx e
     | _, .pass => by simp only [cStmt]; exact HT.nil
-    | _, .raise_ e => by simp only [cStmt]; exact cExpr_HT e
-    | _, .delete targets => by simp only [cStmt]; exact cDelTargets_HT targets
+    | _, .raise_ e => by simp only [cStmt]; exact cExpr_HT fx e
+    | _, .delete targets => by simp only [cStmt]; exact cDelTargets_HT fx targets
     | _, .global_ _ => by simp only [cStmt]; exact HT.nil
     | _, .nonlocal_ _ => by simp only [cStmt]; exact HT.nil
-    | _, .located l s => by simp only [cStmt]; exact HT.cons (step_setLine l) (cStmt_HT l s)
-  theorem cStmts_HT : ∀ (ln : Nat) (ss : List Stmt), HT reg n H0 (cStmts ln ss)
+    | _, .located l s => by simp only [cStmt]; exact HT.cons (step_setLine l) (cStmt_HT fx l s)
+  theorem cStmts_HT (fx : Fixes) : ∀ (ln : Nat) (ss : List Stmt), HT reg n H0 (cStmts fx ln ss)
     | _, [] => by simp only [cStmts]; exact HT.nil
-    | ln, s :: ss => by simp only [cStmts]; exact (cStmt_HT ln s).append (cStmts_HT ln ss)
-  theorem cHandlers_HT : ∀ (ln : Nat) (hs : List Handler), HT reg n H0 (cHandlers ln hs)
+    | ln, s :: ss => by simp only [cStmts]; exact (cStmt_HT fx ln s).append (cStmts_HT fx ln ss)
+  theorem cHandlers_HT (fx : Fixes) : ∀ (ln : Nat) (hs : List Handler), HT reg n H0 (cHandlers fx ln hs)
     | _, [] => by simp only [cHandlers]; exact HT.nil
     | ln, .mk l type name body :: hs => by
       simp only [cHandlers]
-      refine HT.append (a := Op.setLine l :: _) (HT.cons (step_setLine l) ?_) (cHandlers_HT ln hs)
-      refine ((cOptExpr_HT type).append ?_).append (cStmts_HT l body)
-      cases name with
-      | none => exact HT.nil
-      | some nm => exact HT.single (step_store nm)
+      refine HT.append (a := Op.setLine l :: _) (HT.cons (step_setLine l) ?_) (cHandlers_HT fx ln hs)
+      refine (((cOptExpr_HT fx type).append ?_).append (cStmts_HT fx l body)).append ?_
+      · cases name with
+        | none => exact HT.nil
+        | some nm => exact HT.single (step_store nm)
+      · cases name with
+        | none => exact HT.nil
+        | some nm =>
+          simp only []
+          split
+          · exact HT.single (step_delName nm)
+          · exact HT.nil
 end
 
 /-! ### the whole analysis -/
@@ -918,10 +1003,14 @@ theorem inv_init (reg : Registry) (builtins : Scope) (userNs : List Scope) :
   · intro e he; simp [initState] at he
   · omega
 
+theorem inv_analyzeFx (fx : Fixes) (reg : Registry) (builtins : Scope) (userNs : List Scope) (prog : List Stmt) :
+    Inv reg (3 + userNs.length) (initState builtins userNs).heap (analyzeFx fx reg builtins userNs prog) := by
+  unfold analyzeFx
+  exact inv_finishDeferred ((cStmts_HT fx 0 prog) _ (inv_init reg builtins userNs)).1
+
 theorem inv_analyze (reg : Registry) (builtins : Scope) (userNs : List Scope) (prog : List Stmt) :
-    Inv reg (3 + userNs.length) (initState builtins userNs).heap (analyze reg builtins userNs prog) := by
-  unfold analyze
-  exact inv_finishDeferred ((cStmts_HT 0 prog) _ (inv_init reg builtins userNs)).1
+    Inv reg (3 + userNs.length) (initState builtins userNs).heap (analyze reg builtins userNs prog) :=
+  inv_analyzeFx {} reg builtins userNs prog
 
 theorem initHeap_user (builtins : Scope) (ns : List Scope) (i : Nat) (hi : i < ns.length) :
     (initState builtins ns).heap.get (3 + i) = ns.getD i {} := by
@@ -957,7 +1046,6 @@ theorem initState_ids (builtins : Scope) (ns : List Scope) :
     · omega
     · simp only [List.mem_map, List.mem_range] at h
       obtain ⟨a, ha, hh⟩ := h; omega
-  show normIds (_ ++ [3 + ns.length]) = _
-  rw [normIds_snoc_fresh (by omega) (by omega) hfresh]
+  exact normIds_snoc_fresh (by omega) (by omega) hfresh
 
 end Pfb.PyCore
